@@ -7,14 +7,16 @@ from fractions import Fraction
 import framework as F
 
 ID = "C03"
-GEN = ["NeuronDynamics", "NeuronAdaptation"]
+GEN = ["NeuronDynamics", "NeuronAdaptation", "NeuronApply", "NeuronClasses"]
 LEVEL = "proof"
 TECHNIQUE = ("Coq proof over the reals about the kernels translated from neuron_dynamics.py / neuron_adaptation.py on every run: "
              "case-complete characterisation of both thresholding kernels against a three-case spec, refractory-window induction over "
              "arbitrary input/threshold/lock histories lifted by a simulation theorem to whole populations (all 8 classes, any batch, "
              "adaptation on/off), invariants over arbitrary operation sequences, ODE-exactness of the linear integrator, adaptation "
-             "closed forms; class wiring tied to the code by differential correspondence (vm_compute vs the real classes)")
-LEVEL_TEXT = ("Machine-checked proof (Coq 8.16, real-number reading of the generated kernels; 52 theorems + non-vacuity) that one step spikes "
+             "closed forms; class wiring (which kernel with which arguments, refrac_lock, order of state updates, adaptation guard, clear, "
+             "spike) re-translated from the eight classes' methods on every run and proved equal to the model (54 tie obligations, one proof file per class); "
+             "broadcasting / batch reduction tied by differential correspondence (vm_compute vs the real classes)")
+LEVEL_TEXT = ("Machine-checked proof (Coq 8.16, real-number reading of the generated kernels; 52 theorems + non-vacuity + 54 model = generated-code equalities) that one step spikes "
               "exactly when the cell is out of its refractory period and the integrated voltage reaches the (adapted) threshold; that a spike "
               "resets voltage (constant or linear reset) and refractory time in the same step; that for EVERY input/threshold/lock history no "
               "further spike occurs - and with locking the voltage does not move - before step t + max(1, ceil(refrac_t/dt)), that the "
@@ -25,17 +27,29 @@ LEVEL_TEXT = ("Machine-checked proof (Coq 8.16, real-number reading of the gener
               "classes by a simulation theorem. Integration kernels: documented formulas, the linear one is the exact ODE solution "
               "(semigroup, n-step closed form, first-spike time under constant drive, no spike for sub-threshold steady states), the others "
               "are Euler steps. Adaptation kernels: frozen in the refractory period, documented updates otherwise, sum-over-spikes closed "
-              "form, column-level batch-mean form. The class wiring is hand-modelled and tied to the real classes by a differential "
-              "correspondence check; a Python restatement of the property is the direct oracle / failing-input search.")
-LEVEL_NOTE = ("Trusted: Coq kernel; translator for the 5 dynamics + 3 adaptation kernels (re-run every check; generated kernels are also run "
-              "against the real functions through the correspondence); hand-written wiring model C03/Neuron.v (forward of the 8 classes, "
-              "apply_adaptive_*, batch mean, spike attribute, clear, constructor domains) validated by correspondence only (generator "
-              "coverage); torch element-wise semantics, torch.sum / torch.mean modelled by their meaning. Axioms: standard-library reals "
+              "form, column-level batch-mean form. The class wiring is tied to the source twice: apply_adaptive_currents/_thresholds and, for "
+              "each of the eight classes, _integrate_v, the forward step of one cell (thresholding kernel, every argument, refrac_lock, "
+              "values left in voltage/refrac), the per-element adaptation update (reading the NEW refrac/voltage) and its guard, clear "
+              "and spike are GENERATED from the methods' source on every run (Gen/NeuronApply.v, Gen/NeuronClasses.v) and proved equal "
+              "to the model for every numeric instance (tie_* obligations, incl. the assembled column step of each class); the lifting "
+              "to batch/neuron/adaptation axes and the batch mean are hand-modelled and tied by the differential correspondence check; "
+              "a Python restatement of the property is the direct oracle / failing-input search.")
+LEVEL_NOTE = ("Trusted: Coq kernel; translator for the 5 dynamics + 3 adaptation kernels, the 2 apply_adaptive_* reductions (torch.sum over "
+              "the last axis read as tsum over one neuron's K values) and the pattern-checked extractor of the eight classes' "
+              "_integrate_v / forward / clear / spike (fail-closed on any other statement shape; self.<attr> reads become parameters, "
+              "state assignments are tracked) - all re-run every check, generated kernels are also run against the real functions "
+              "through the correspondence; in the hand-written model C03/Neuron.v only the tensor-axis lifting (map2 over the batch, "
+              "map3/map4 over K, batch mean of the adaptation setters = torch.mean over dim 0), the constructor domains (ctor_ok), the "
+              "initial state, the external state writes (setters, in-place edit, load_state_dict) and the train flag remain validated by "
+              "correspondence only (generator coverage); torch element-wise / broadcasting semantics modelled by their meaning. Axioms: standard-library reals "
               "(+ Classical_Prop.classic through Flocq/Coquelicot). Theorems are exact-arithmetic (R) statements; binary64 rounding is "
               "not proved (the oracle checks the window with ceil computed on the exact ratio of the two doubles minus 1e-9, and tolerates "
               "1e-9-relative ambiguity at the threshold except on exactly representable boundary cases). NOT covered: dt setter, "
               "state_dict, batch_reduction other than torch.mean, float32, malformed input shapes (the model truncates, torch raises or "
               "broadcasts). Expected known finding: spike attribute with refrac_t = 0 (signature kind=spike_attr_refrac0).")
+TRUSTED = ["tools/translate.py NeuronClasses extractor: reading of the method bodies of linear.py / nonlinear.py / mixins.py per element "
+           "(one neuron, one batch sample, one adaptation index); broadcasting over batch / neuron / K axes and the batch reduction in "
+           "the adaptation setters are NOT generated (hand-written in C03/Neuron.v, validated by the correspondence)"]
 HEADER = ("From Coq Require Import List ZArith Bool PrimFloat.\n"
           "From Inferno Require Import Base.Num Base.NumF C03.Neuron C03.NeuronExec.\n"
           "Import ListNotations.\nOpen Scope float_scope.\n")
